@@ -31,7 +31,7 @@ SQL_WRITE = re.compile(r'^\s*(INSERT|UPDATE|DELETE|CREATE|DROP|ALTER|REPLACE|VAC
 
 
 def shards(tier, seed):
-	n = 6 if tier == 'quick' else 24
+	n = 12 if tier == 'quick' else 32
 	out = [dict(name=f'hist-{i}', kind='hist', sub=i, nhist=5 if tier == 'quick' else 12, maxlen=25 if tier == 'quick' else 60) for i in range(n)]
 	out.append(dict(name='strace', kind='strace', nhist=1 if tier == 'quick' else 6, steps=6 if tier == 'quick' else 10))
 	out.append(dict(name='testdb', kind='hist', sub=99, nhist=1, maxlen=20, testdb=True))
